@@ -3910,6 +3910,14 @@ class Fused(Blockwise):
     def _meta(self):
         return self.exprs[0]._meta
 
+    def simplify_once(self, dependents, simplified):
+        # A fused group is the result of the LAST optimization stage. Its
+        # sub-graph refers to the external dependencies by name, so these must
+        # not be rewritten when an already optimized expression is optimized
+        # again (the fused tasks would point to keys that no longer exist:
+        # "ValueError: Missing dependency ...").
+        return self
+
     def _tree_repr_lines(self, indent=0, recursive=True):
         header = f"Fused({self._name[-5:]}):"
         if not recursive:
